@@ -59,6 +59,11 @@ fn dname(d: &Direction) -> &'static str {
 /// `steps` symbolic swaps from an arbitrary reserve pair; the last `full` steps are explored
 /// exhaustively, the earlier ones follow the seeded witness (an open region of inputs)
 fn seq(decimals: u8, steps: Vec<(Kind, Direction)>, fluct_sym: bool, full_from: usize, seeds: Vec<u128>) -> impl Fn() {
+    seq_r(decimals, steps, fluct_sym, full_from, seeds, false)
+}
+
+/// `reopen`: between the swaps the owner closes the market and opens it again
+fn seq_r(decimals: u8, steps: Vec<(Kind, Direction)>, fluct_sym: bool, full_from: usize, seeds: Vec<u128>, reopen: bool) -> impl Fn() {
     move || {
         let d = pow10(decimals);
         let mut w = vamm_only(decimals, fluct_sym, VAR_MAX);
@@ -92,6 +97,12 @@ fn seq(decimals: u8, steps: Vec<(Kind, Direction)>, fluct_sym: bool, full_from: 
             hist.push(post);
             if i + 1 < steps.len() {
                 w.next_block(15);
+                if reopen {
+                    symrt::set_full(false);
+                    w.vamm_exec(OWNER, 0, &VammExec::SetOpen { open: false });
+                    w.next_block(15);
+                    w.vamm_exec(OWNER, 0, &VammExec::SetOpen { open: true });
+                }
             }
         }
     }
@@ -126,6 +137,10 @@ pub fn scenarios(seed: u64) -> Vec<Scenario> {
         let name = format!("c01.two.{}{}-{}{}", kname(a.0), dname(&a.1), kname(b.0), dname(&b.1));
         let tier = if a.0 == Input && b.0 == Input { Tier::Thorough } else { Tier::Quick };
         v.push(sc("C01", tier, &name, "two swaps, amounts/limits/reserves symbolic; first swap follows the seeded witness path, second explored exhaustively; includes the return-to-earlier-net-position clause", 300, 240, seq(9, vec![a, b], false, 1, vec![s1, s2])));
+    }
+    for (a, b) in [((Input, AddToAmm), (Output, AddToAmm)), ((Output, RemoveFromAmm), (Input, AddToAmm))] {
+        let name = format!("c01.two.reopen.{}{}-{}{}", kname(a.0), dname(&a.1), kname(b.0), dname(&b.1));
+        v.push(sc("C01", Tier::Quick, &name, "two swaps with the market closed and re-opened by the owner in between (SetOpen false / true); second swap explored exhaustively", 300, 240, seq_r(9, vec![a, b], false, 1, vec![s1, s2], true)));
     }
     // thorough: both steps exhaustive, and three-step sequences
     for (a, b) in [((Input, AddToAmm), (Output, AddToAmm)), ((Output, RemoveFromAmm), (Input, AddToAmm)), ((Input, RemoveFromAmm), (Input, AddToAmm)), ((Output, AddToAmm), (Output, RemoveFromAmm))] {
